@@ -8,6 +8,8 @@ use serde_json::Value;
 pub enum Step {
     Name(String),
     Idx(usize),
+    /// a canonical index too large for `usize` (its decimal digits): a location no document has
+    Big(String),
 }
 pub type Loc = Vec<Step>;
 
@@ -16,6 +18,7 @@ pub fn render(loc: &[Step]) -> String {
     for st in loc {
         match st {
             Step::Idx(i) => s.push_str(&format!("[{}]", i)),
+            Step::Big(d) => s.push_str(&format!("[{}]", d)),
             Step::Name(n) => {
                 s.push_str("['");
                 for c in n.chars() {
@@ -121,7 +124,10 @@ pub fn parse(path: &str) -> Option<Loc> {
                 return None;
             }
             i += 1;
-            loc.push(Step::Idx(digits.parse().ok()?));
+            match digits.parse::<usize>() {
+                Ok(i) => loc.push(Step::Idx(i)),
+                Err(_) => loc.push(Step::Big(digits)),
+            }
         }
     }
     Some(loc)
@@ -224,6 +230,7 @@ pub fn loc_str(loc: &[Step]) -> String {
     for st in loc {
         match st {
             Step::Idx(i) => s.push_str(&format!("/i:{}", i)),
+            Step::Big(d) => s.push_str(&format!("/i:{}", d)),
             Step::Name(n) => {
                 s.push_str("/n:");
                 for b in n.bytes() {
@@ -248,6 +255,8 @@ mod tests {
                 assert_eq!(parse(&p), Some(loc), "{}", p);
             }
         }
+        let big = "$['a'][18446744073709551616]";
+        assert_eq!(parse(big).map(|l| render(&l)), Some(big.to_string()));
         assert_eq!(parse("$['a'"), None);
         assert_eq!(parse("$[01]"), None);
         assert_eq!(parse("$[-1]"), None);
